@@ -76,6 +76,10 @@ class Generic(metaclass=GenericMeta):
     raise NotImplementedError()
 
 
+# A "default" for `to_json_dict` that no field value equals to.
+_ALWAYS_EMIT = object()
+
+
 class ValueSpecBase(ValueSpec):
   """A convenient base class for ValueSpec subclasses.
 
@@ -1034,7 +1038,9 @@ class Enum(Generic, PrimitiveType):
   def to_json(self, **kwargs: typing.Any) -> typing.Dict[str, typing.Any]:
     return self.to_json_dict(
         fields=dict(
-            default=(self.default, MISSING_VALUE),
+            # NOTE: `default` is a required argument of `Enum.__init__`, so it
+            # is always emitted (also when it is MISSING_VALUE).
+            default=(self.default, _ALWAYS_EMIT),
             values=(self._values, None),
             frozen=(self._frozen, False),
         ),
